@@ -8,6 +8,10 @@ ids = [p["id"] for p in props]
 
 # id -> (engine, technique, level text, level note, design ref)
 CHECKS = {
+ "C16": ("E1", "exhaustive enumeration of the product of evidence sources and environment answers (event log variants, quote formats, provider, getter outcomes, forced fetch) on the real extract.Endorsement with recording doubles; exhaustive small-domain enumeration of object names and of UEFI variable names under a scratch efivarfs root; parse-back of emitted events",
+         "All 2160 combinations of 10 event-log situations x 9 supplied quotes x 4 provider behaviours x 3 getter behaviours x forced fetch run through extract.Endorsement; every requested URL must be derived from a 48-byte measurement of the supplied evidence (or be the log's URI locator), the bucket root or a placeholder-measurement URL is never requested, and unambiguous local evidence is returned byte for byte with no network access unless forced. Object names are checked for injectivity and technology separation over all measurements of <=2 bytes and 385 48-byte values; 258 (thorough 1554) UCS-2 variable names x 3 GUIDs are resolved under a scratch root with symlinks and sentinel files outside; events emitted for 4 digests must parse back to one FirmwareRIM variable locator and one digest-derived URI locator under one manifest GUID.",
+         "Trusted: an event-log URI locator is treated as a legitimate network target; injectivity beyond the enumerated measurements follows from hex encoding; the emitted-events sub-check needs the overlay export.",
+         "DESIGN.md#c16"),
  "C18": ("E5", "bounded-exhaustive enumeration of field-value menus (all pairs) per binary structure, real encodings compared byte for byte with an independent layout table, decode-encode round trips, every truncation/extension and reserved/out-of-range variant fed to the decoders",
          "EFI GUID, GUID-table entry, metadata-offset block, SEV-ES reset block, SEV metadata header and section, TDVF descriptor/section/metadata, PI hand-off table / resource descriptor / GUID-extension HOB (data lengths 0-17), the VMSA (every one of 48 scalar fields at 6 values against its APM offset and width, 10 segments x selector/limit/base menus, each reserved range at its documented size, off-by-one sizes and every single non-zero byte, out-of-range cpl/selector/attrib), SP800-155 Event3 (string/locator menus, zero padding 0-8, trailing garbage, every truncation), TCG crypto-agile logs (0-2 events, every truncation must be refused or re-encode to exactly the prefix) and size-prefixed strings.",
          "Trusted: the layout tables restated in the harness (APM vol. 2 table B-4, PI 1.6, PFP, edk2); PAGE_INFO has unexported fields and is covered through the digest chain in C04.",
